@@ -13,6 +13,7 @@ use super::Point;
 use crate::common::{Ctx, machinery_error, ncpu};
 
 /// One finished execution as seen by the search.
+#[derive(serde::Serialize, serde::Deserialize)]
 pub struct Run {
     pub trace: Vec<Point>,
     /// normalised observation: must be identical when a choice vector is replayed
